@@ -54,6 +54,11 @@ def read_model_parameters(
                 soil.profile.loc[i, "dz"] += 0.1
                 soil.fill_nan()
                 break
+        else:
+            # every compartment has reached the 0.25 m limit: keep extending the
+            # bottom compartment (the loop would otherwise never terminate)
+            soil.profile.loc[soil.profile.index[-1], "dz"] += 0.1
+            soil.fill_nan()
 
     # Deepening may have thickened the first compartment: the top-soil depth
     # used for the water stress comparisons covers at least that compartment
